@@ -382,22 +382,26 @@ func (e *Exec) lockOp(recv Value, lock bool, name string) {
 		e.unsupported("lock on %T", recv)
 	}
 	if e.lockHeld == nil {
-		e.lockHeld = map[*Cell]bool{}
+		e.lockHeld = map[*Cell]int{}
 	}
+	read := strings.HasSuffix(name, ".RLock") || strings.HasSuffix(name, ".RUnlock")
 	held := e.lockHeld[p.C]
 	if lock {
-		if held {
+		if held != 0 {
 			e.check("assert", "lock:double-lock", smt.False)
 		}
-		e.lockHeld[p.C] = true
+		if read {
+			e.lockHeld[p.C] = 1
+		} else {
+			e.lockHeld[p.C] = 2
+		}
 	} else {
-		if !held {
+		if held == 0 {
 			e.check("assert", "lock:unlock-of-unlocked", smt.False)
 		}
-		e.lockHeld[p.C] = false
+		e.lockHeld[p.C] = 0
 	}
 }
-
 // ufCall replaces a call by an uninterpreted function of its scalar and byte-slice arguments.
 func (e *Exec) ufCall(fn *ssa.Function, args []Value) Value {
 	var ts []*smt.Term
